@@ -1273,7 +1273,7 @@ fn account(acc: &mut Acc, sc: &Scenario, out: &RunOut, reference: &Reference, ro
             stats.count("profile_prefix_checks", 1);
         }
     }
-    if stats.samples.len() < 3 && (nontrivial && (g % 7 == 0 || !fired.is_empty())) {
+    if stats.samples.is_empty() || (stats.samples.len() < 3 && (nontrivial && (g % 7 == 0 || !fired.is_empty()))) {
         stats.samples.push(json!({"scenario": sc, "exit_status": out.status, "stdout": text_head(&out.stdout), "reference": match reference { Reference::Built{code, eeprom} => format!("built: {} flash bytes, {} eeprom bytes", code.len(), eeprom.len()), Reference::Fails(e) => format!("fails: {}", e) }, "trace": out.trace.iter().map(event_line).collect::<Vec<_>>()}));
     }
     if let Some(v) = judge(sc, out, reference, root, seed) {
